@@ -57,7 +57,7 @@ def run_sampler(cfg, seed, target, lr=None):
                                                      fragment_masses=dict(cfg["masses"]) if cfg.get("masses") else None,
                                                      all_atom=cfg["all_atom"], seed=seed)
             masses = dict(s.fragment_masses)
-            mol = s.sample(target)
+            mol = s.sample(target, start_fragment=cfg.get("start_fragment"))
     except Exception as exc:
         return {"outcome": project.outcome_of(exc), "msg": str(exc)[:120]}
     return {"outcome": "ok", "mol": mol, "masses": masses, "log": list(lr.log) if lr is not None else None}
@@ -129,7 +129,8 @@ def observe(cfg, seed, target, lr=None):
          "react": [[parse_desc(k), float(v) > 0] for k, v in cfg["react"].items()],
          "cond": [[parse_desc(k), parse_desc(k2), float(v2) > 0] for k, v in cfg["cond"].items() for k2, v2 in v.items()],
          "terminal": [parse_desc(x) for x in cfg["terminal"]], "target": int(round(target * 1000))}
-    rec = {"K": K, "start": copy_frag.get(0, 0), "events": events, "final_open": final_open, "draws": draws,
+    rec = {"K": K, "start": copy_frag.get(0, 0), "want_start": (names.index(cfg["start_fragment"]) + 1) if cfg.get("start_fragment") else 0,
+           "events": events, "final_open": final_open, "draws": draws,
            "tree_ok": bool(tree_ok), "cfg": cfg["name"], "seed": seed, "target": target}
     # the sample seen as a resolved molecule: coarse nodes = copies, base edges = the links
     coarse = {"nodes": [{"id": c, "name": names[copy_frag[c] - 1] if copy_frag[c] else "", "attrs": [], "raw_charge": "",
